@@ -1,4 +1,22 @@
+//! verif-strand: runtime-monitoring checks over strands / settlement (C15).
+
+mod c15;
+mod directed;
+mod fork;
+mod settle;
+mod uni;
+mod world;
+
+use verif_core::Args;
+
 fn main() {
-    println!("HARNESS-ERROR stub");
-    std::process::exit(2);
+    let args = Args::parse();
+    let code = match args.prop.as_str() {
+        "C15" => c15::run(&args),
+        other => {
+            println!("HARNESS-ERROR unknown property {other}");
+            2
+        }
+    };
+    std::process::exit(code);
 }
